@@ -33,6 +33,10 @@ def parseOp : List String → Option Op
     | _, _ => none
   | ["sremove", i] => i.toNat?.map .sremove
   | ["reopen"] => some .reopen
+  | ["insertfail", k] => (key? k).map .insertFail
+  | ["tryinsfail", i, k] => match i.toNat?, key? k with
+    | some i, some k => some (.tryInsertFail i k)
+    | _, _ => none
   | _ => none
 
 def step (s : St) (toks : List String) : St × String :=
